@@ -353,6 +353,16 @@ def nested_conderr_cli(ctx, res):
 
 def run(ctx, prop):
     res = vlib.Result()
+    extra_kinds = {"nested-cli": nested_cli, "nested-conderr-cli": nested_conderr_cli, "nested-overlap-cli": nested_overlap_cli}
+    if ctx.replay_cases and any(c.get("kind") in extra_kinds for c in ctx.replay_cases):
+        # a replay of a case of one of the through-the-binary sections runs that section again
+        for kind in sorted({c.get("kind") for c in ctx.replay_cases if c.get("kind") in extra_kinds}):
+            extra_kinds[kind](ctx, res)
+        ctx.replay_cases = [c for c in ctx.replay_cases if c.get("kind") not in extra_kinds]
+        if not ctx.replay_cases:
+            res.rule = "replay of the through-the-binary section(s) of this check"
+            res.samples = [{"replayed_sections": sorted(extra_kinds)}]
+            return res
     cases = ctx.replay_cases if ctx.replay_cases else gen_cases(ctx, prop)
     for k, c in enumerate(cases):
         c["id"] = k
